@@ -54,3 +54,5 @@ reg('C18', 'propchecks.c18', 'proof', T7, [ASCII, DEPTH, CORR, 'the only module-
 T7P = [('Bashlex.Pool.exec_value', QC), ('Bashlex.Pool.exec_pure', QC), ('Bashlex.Pool.exec_all', QC), ('Bashlex.Pool.exec_done', QC), ('Bashlex.Pool.exec_store_prefix', QC),
        ('Bashlex.Env.answer_eqModStore', QC), ('Bashlex.Q.run_touched_irrelevant', QC)]
 reg('C19', 'propchecks.c19', 'proof', T7P, [ASCII, CORR, 'the theorem is about the abstract interleaving model (atomic queries on one shared store); it cannot exhibit CPython preemption points, the atomicity of defaultdict.__missing__ under the GIL, or free-threaded builds: those are observed under the deterministic scheduler and stress runs'])
+
+reg('C02', 'propchecks.c02', 'translation_validation', T1[:1], [ASCII, CORR, 'the expected tree is a Lean definition evaluated per generated case (translation-validation strength), not a theorem over all trees'])
